@@ -4,6 +4,8 @@ package main
 
 import (
 	"fmt"
+	"os"
+	"time"
 	"strings"
 
 	"verifharness/hx"
@@ -105,7 +107,13 @@ func compareModel(m *hx.Model, ep *endpoint, res []opRes) string {
 	for _, r := range res {
 		p.Ops = append(p.Ops, r.Op)
 	}
+	t0 := time.Now()
 	ans := askModel(m, p)
+	modelTime[bucket(len(p.line()))] += time.Since(t0)
+	modelRuns[bucket(len(p.line()))]++
+	if d := time.Since(t0); d > 2*time.Second {
+		fmt.Fprintf(os.Stderr, "slow model answer %.1fs: cfg=%+v ops=%d line=%d bytes\n", d.Seconds(), ep.cfg, len(p.Ops), len(p.line()))
+	}
 	if len(ans) != len(res) {
 		return fmt.Sprintf("model answered %d operations, implementation ran %d", len(ans), len(res))
 	}
@@ -134,4 +142,24 @@ func modelable(c cfg) bool {
 		return false
 	}
 	return true
+}
+
+var modelTime = map[int]time.Duration{}
+var modelRuns = map[int]int{}
+
+func bucket(n int) int {
+	b := 1
+	for b < n {
+		b *= 4
+	}
+	return b
+}
+
+func dumpModelTime() {
+	if os.Getenv("WS_MODEL_TIMING") == "" {
+		return
+	}
+	for b, d := range modelTime {
+		fmt.Fprintf(os.Stderr, "model lines <= %d bytes: %d runs, %.1fs\n", b, modelRuns[b], d.Seconds())
+	}
 }
